@@ -277,6 +277,97 @@ fn case(rng: &mut Rng, rep: &mut Report, case_no: u64, dump: bool) {
     }
 }
 
+/// Same registration structure over (a) distinctly named resource types and (b) distinct resource
+/// types that all carry the *same* type name (declared in sibling blocks): "which concrete types
+/// stand for the resources" must not matter, whatever their names are.
+fn same_named_types(rep: &mut Report, case_no: u64) {
+    use shred::{DispatcherBuilder, Read, System, Write};
+    rep.evaluations += 1;
+    // registers one writer (and optionally one reader) of a block-local resource type
+    macro_rules! block_local {
+        ($b:expr, $reader:expr) => {{
+            #[derive(Default)]
+            struct Counter(u64);
+            struct Wr;
+            impl<'a> System<'a> for Wr {
+                type SystemData = Write<'a, Counter>;
+                fn run(&mut self, mut d: Self::SystemData) {
+                    d.0 += 1;
+                }
+            }
+            struct Rd;
+            impl<'a> System<'a> for Rd {
+                type SystemData = Read<'a, Counter>;
+                fn run(&mut self, d: Self::SystemData) {
+                    std::hint::black_box(d.0);
+                }
+            }
+            $b.add(Wr, "", &[]);
+            if $reader {
+                $b.add(Rd, "", &[]);
+            }
+            std::any::type_name::<Counter>()
+        }};
+    }
+    macro_rules! named {
+        ($b:expr, $name:ident, $reader:expr) => {{
+            #[derive(Default)]
+            struct $name(u64);
+            struct Wr;
+            impl<'a> System<'a> for Wr {
+                type SystemData = Write<'a, $name>;
+                fn run(&mut self, mut d: Self::SystemData) {
+                    d.0 += 1;
+                }
+            }
+            struct Rd;
+            impl<'a> System<'a> for Rd {
+                type SystemData = Read<'a, $name>;
+                fn run(&mut self, d: Self::SystemData) {
+                    std::hint::black_box(d.0);
+                }
+            }
+            $b.add(Wr, "", &[]);
+            if $reader {
+                $b.add(Rd, "", &[]);
+            }
+        }};
+    }
+    let pool = crate::sys::make_pool(1);
+    let mut a = DispatcherBuilder::new();
+    #[cfg(feature = "parallel")]
+    a.add_pool(pool.clone());
+    named!(a, Res0, false);
+    named!(a, Res1, false);
+    named!(a, Res2, true);
+    named!(a, Res3, false);
+    named!(a, Res4, true);
+    let mut b = DispatcherBuilder::new();
+    #[cfg(feature = "parallel")]
+    b.add_pool(pool.clone());
+    let n0 = block_local!(b, false);
+    let n1 = block_local!(b, false);
+    let _ = block_local!(b, true);
+    let _ = block_local!(b, false);
+    let _ = block_local!(b, true);
+    let _ = &pool;
+    let (sa, sb) = (a.build().verif_shape(), b.build().verif_shape());
+    rep.metric("same_named_type_builds", 1);
+    if n0 == n1 {
+        rep.metric("type_names_really_coincide", 1);
+    }
+    if sa != sb {
+        rep.violation(
+            "layout_differs:same_named_types",
+            &format!("the same registration structure gives shape {:?} over distinctly named resource types but {:?} over distinct types that share the name {:?}", sa.0, sb.0, n0),
+            case_no,
+            J::Null,
+        );
+    } else {
+        rep.nontrivial(0x5a3e_0001);
+    }
+}
+
 pub fn run(args: &Args) -> i32 {
     let mut rep = Report::new(args);
     let dump = args.has("--dump");
@@ -285,6 +376,9 @@ pub fn run(args: &Args) -> i32 {
         Some(c) => vec![c],
         None => (0..n).collect(),
     };
+    if !dump {
+        guard_case(&mut rep, 0, |rep| same_named_types(rep, 0));
+    }
     for c in range {
         if rep.time_up() {
             break;
